@@ -2,6 +2,7 @@
 
 from vsg import parser, violation
 from vsg.rule_group import structure
+from vsg.token import delimited_comment
 
 
 class remove_comments_from_end_of_lines_bounded_by_tokens(structure.Rule):
@@ -40,7 +41,7 @@ class remove_comments_from_end_of_lines_bounded_by_tokens(structure.Rule):
             for iToken, oToken in enumerate(lTokens):
                 if isinstance(oToken, parser.carriage_return):
                     iLine += 1
-                if isinstance(oToken, parser.comment):
+                if isinstance(oToken, parser.comment) and not isinstance(oToken, (delimited_comment.beginning, delimited_comment.ending)):
                     if isinstance(lTokens[iToken + 1], parser.carriage_return):
                         if isinstance(lTokens[iToken - 1], parser.carriage_return) or isinstance(lTokens[iToken - 2], parser.carriage_return):
                             continue
